@@ -126,6 +126,9 @@ func gfCases() []*gfCase {
 	add("out:samedir", gfCase{flags: []string{"-file=foo_test.go=p/foo_custom_test.go"}})
 	add("out:mixed", gfCase{flags: []string{"-file=foo.go=p/zz.go", "-file=a.b.go"}})
 	add("out:root", gfCase{flags: []string{"-file=UPPER.go=lower.go"}})
+	add("out:two", gfCase{flags: []string{"-file=foo.go=p/x1.go", "-file=a.b.go=p/y1.go"}})
+	add("out:lastdefault", gfCase{flags: []string{"-file=foo.go=p/x2.go", "-file=a.b.go=p/y2.go", "-file=UPPER.go"}})
+	add("out:firstdefault", gfCase{flags: []string{"-file=foo.go", "-file=a.b.go=p/y3.go"}})
 	// An input whose default output name is another input of the package.
 	add("collide", gfCase{files: []gfFile{
 		{name: "foo.go", pkg: "p", flow: true, tagged: true},
